@@ -110,7 +110,8 @@ fn canonical(ctx: &mut Ctx, arena: &Arena, d: u32, ver: u32, l: usize, img: &[u8
                 }
                 match ctx.call("size_hint", || it.size_hint()) {
                     Out::Val((lo, hi)) => {
-                        if lo > n - k || hi.map_or(false, |h| h < n - k) {
+                        // the type is an ExactSizeIterator: both bounds are the number of items to come
+                        if lo != n - k || hi != Some(n - k) {
                             ctx.violation("c18/size_hint", || format!("size_hint() = ({}, {:?}) with {} items still to come", lo, hi, n - k));
                         }
                     }
@@ -165,6 +166,52 @@ fn canonical(ctx: &mut Ctx, arena: &Arena, d: u32, ver: u32, l: usize, img: &[u8
             }
             if j != n.max(1) {
                 ctx.violation("c18/clone-suffix", || format!("clone taken after 1 item ended at item {}, expected {}", j, n));
+            }
+        }
+        // clone_from across two tags: an iterator over this map, overwritten in place with an iterator over another
+        // valid map (2 resp. 4 descriptors of 48 bytes at the left end of the arena) that has yielded one item, goes
+        // on exactly like that one - and the other way round
+        if ok && l + 400 < arena.len() {
+            for other_n in [2usize, 4] {
+                let mut other = vec![0u8; 16 + 48 * other_n];
+                for (i, b) in other.iter_mut().enumerate() {
+                    *b = marker(i, 87);
+                }
+                wr32(&mut other, 0, 17);
+                wr32(&mut other, 4, (16 + 48 * other_n) as u32);
+                wr32(&mut other, 8, 48);
+                wr32(&mut other, 12, 1);
+                let q = arena.place_at(0, &other);
+                let oslice: &[u8] = unsafe { std::slice::from_raw_parts(q, other.len()) };
+                let otag = Generic::ref_from_slice(oslice).unwrap().cast::<EFIMemoryMapTag>();
+                let omap = unsafe { q.add(16) } as usize;
+                let pmap = map as usize;
+                let r = ctx.call("clone_from", || {
+                    let mut a = tag.memory_areas();
+                    let mut b = otag.memory_areas();
+                    let _ = b.next();
+                    a.clone_from(&b);
+                    let la = a.len();
+                    let ra: Vec<usize> = a.map(|e| e as *const _ as usize - omap).collect();
+                    // and back: the other map's iterator takes over this map's iterator after one item
+                    let mut c = otag.memory_areas();
+                    let mut d2 = tag.memory_areas();
+                    let _ = d2.next();
+                    c.clone_from(&d2);
+                    let lc = c.len();
+                    let rc: Vec<usize> = c.take(8).map(|e| (e as *const _ as usize).wrapping_sub(pmap)).collect();
+                    (la, ra, lc, rc)
+                });
+                match r {
+                    Out::Val((la, ra, lc, rc)) => {
+                        let want_a: Vec<usize> = (1..other_n).map(|i| 48 * i).collect();
+                        let want_c: Vec<usize> = (1..n).take(8).map(|i| d as usize * i).collect();
+                        if la != other_n - 1 || ra != want_a || lc != n.saturating_sub(1) || rc != want_c {
+                            ctx.violation("c18/clone-from", || format!("after clone_from an iterator reports len {} and yields descriptors at {:?} (source: {} of {} descriptors of 48 bytes left); the reverse reports len {} and yields {:?} (source: {} of {} descriptors of {} bytes left)", la, ra, other_n - 1, other_n, lc, rc, n.saturating_sub(1), n, d));
+                        }
+                    }
+                    Out::Panic => ctx.violation("c18/spurious-panic/clone-from", || "clone_from between iterators of two valid maps panicked".into()),
+                }
             }
         }
         // Debug of the tag itself
@@ -419,7 +466,7 @@ fn run(ctx: &mut Ctx) {
     let arena = Arena::new(2);
     let quick = ctx.quick();
     let lmax = if quick { 2 * 64 + 9 } else { 6 * 64 + 9 };
-    ctx.bound("inputs", format!("desc_size 0..=128 + EDGE32 x desc_version {{1,0,2,0xFFFFFFFF}} x every map length 0..={} (not only multiples); byte-marked descriptors; tag flush against a guard page; fills A/B; canonical program = memory_areas, Debug, then next() to the end with len()/size_hint() before every step, a clone after the first item, Debug of the tag", lmax));
+    ctx.bound("inputs", format!("desc_size 0..=128 + EDGE32 x desc_version {{1,0,2,0xFFFFFFFF}} x every map length 0..={} (not only multiples); byte-marked descriptors; tag flush against a guard page; fills A/B; canonical program = memory_areas, Debug, then next() to the end with len()/size_hint() before every step, a clone after the first item, clone_from to and from an iterator over a second map, Debug of the tag; size_hint() must be exact", lmax));
     let mut ds: Vec<u32> = (0..=128).collect();
     ds.extend(EDGE32.iter().copied().filter(|&e| e > 128));
     let mut versions: Vec<u32> = vec![1, 0, 2, 0xFFFF_FFFF];
